@@ -59,6 +59,9 @@ pub enum BaseRng {
     ChaCha(ChaCha12Rng),
     Pcg(Pcg64),
     Xo(SmallRng),
+    /// counter-based splitmix stream: trivially cheap to construct and clone (used by exhaustive sweeps,
+    /// where the swept word, not the filler stream, is the object of study)
+    Mix { seed: u64, ctr: u64 },
 }
 
 impl BaseRng {
@@ -85,6 +88,7 @@ impl Clone for BaseRng {
             }
             BaseRng::Pcg(r) => BaseRng::Pcg(r.clone()),
             BaseRng::Xo(r) => BaseRng::Xo(r.clone()),
+            BaseRng::Mix { seed, ctr } => BaseRng::Mix { seed: *seed, ctr: *ctr },
         }
     }
 }
@@ -102,6 +106,10 @@ impl TryRng for BaseRng {
             BaseRng::ChaCha(r) => r.next_u64(),
             BaseRng::Pcg(r) => r.next_u64(),
             BaseRng::Xo(r) => r.next_u64(),
+            BaseRng::Mix { seed, ctr } => {
+                *ctr = ctr.wrapping_add(1);
+                mix(*seed ^ mix(*ctr))
+            }
         })
     }
     fn try_fill_bytes(&mut self, dst: &mut [u8]) -> Result<(), Infallible> {
@@ -147,6 +155,17 @@ impl VRng {
     }
     pub fn from_env(seed: u64) -> VRng {
         VRng::new(Prng::from_env(), seed)
+    }
+    /// cheap counter-based filler stream (sweeps)
+    pub fn mix(seed: u64) -> VRng {
+        VRng {
+            base: BaseRng::Mix { seed, ctr: 0 },
+            forced: Vec::new(),
+            pos: 0,
+            call_words: 0,
+            budget: DEFAULT_BUDGET,
+            kinds: [255; 16],
+        }
     }
     pub fn with_forced(mut self, forced: &[(u64, u64)]) -> VRng {
         self.forced = forced.to_vec();
